@@ -8,6 +8,7 @@ import (
 	"fmt"
 	"net"
 	"net/http"
+	"net/url"
 	"os"
 	"strings"
 	"syscall"
@@ -22,7 +23,7 @@ import (
 func init() {
 	register(&Prop{
 		ID: "C15", Level: "fault_enumeration",
-		Rule: "one case = a router with CustomRecoveryWithLogHandler(capturing handler, DefaultHandleRecovery) over all handler kinds, generated routes, request headers carrying unique secret tokens under credential-bearing names in canonical, lower-case and mixed capitalisation (drawn; some with two values or under two capitalisations at once; values of 2, 3 or 12+ bytes) next to ordinary headers, a drawn request-target form (origin-form, absolute-form, no host), and a generated Updates/View program; for that configuration ALL combinations are enumerated of panic value (string, error, wrapped error, nil, custom type, http.ErrAbortHandler bare and wrapped, net.OpError with broken pipe / connection reset / other errno, directly or one wrapping layer down) x response progress at the time of the panic (nothing, header only, partial body, after a failed write) x panic site (route handler, route-specific middleware, route handler reached through an ignored trailing slash, a second fox router without Recovery mounted in the route handler, no-route, no-method and options handlers), a panic after every prefix of the Updates/View program run inside a handler, and a panic raised by a middleware constructor while Router.Handle/Update build a route inside a handler (user code running under the writer lock). Oracle: ServeHTTP returns normally (ErrAbortHandler re-raised as the identical value); the simulated connection shows 500 iff nothing had been written and the value is not a broken-connection error, nothing at all for broken connections, an untouched partial response otherwise; exactly one diagnostic record naming route (or scope), parameters and request line and containing none of the secret values; afterwards the routes are unchanged, a follow-up request is served and a write issued under the scheduler completes (writer lock released, else deadlock). One run in four repeats the route-handler site through CustomRecovery's built-in log handler on a route whose wildcards are named like log attributes (latency, status, error, level, time, msg, ...), reading the record back from standard error. Non-trivial: every run (all combinations are executed); distinct = hash of (configuration, header capitalisation, program).",
+		Rule: "one case = a router with CustomRecoveryWithLogHandler(capturing handler, DefaultHandleRecovery) over all handler kinds, generated routes, request headers carrying unique secret tokens under credential-bearing names in canonical, lower-case and mixed capitalisation (drawn; some with two values or under two capitalisations at once; values of 2, 3 or 12+ bytes) next to ordinary headers, a drawn request-target form (origin-form, absolute-form, no host), and a generated Updates/View program; for that configuration ALL combinations are enumerated of panic value (string, error, wrapped error, nil, custom type, http.ErrAbortHandler bare and wrapped, net.OpError with broken pipe / connection reset / other errno, directly or one wrapping layer down) x response progress at the time of the panic (nothing, header only, partial body, after a failed write) x panic site (route handler, route-specific middleware, route handler reached through an ignored trailing slash, a second fox router without Recovery mounted in the route handler, no-route, no-method and options handlers), a panic after every prefix of the Updates/View program run inside a handler, and a panic raised by a middleware constructor while Router.Handle/Update build a route inside a handler (user code running under the writer lock). Oracle: ServeHTTP returns normally (ErrAbortHandler re-raised as the identical value); the simulated connection shows 500 iff nothing had been written and the value is not a broken-connection error, nothing at all for broken connections, an untouched partial response otherwise; exactly one diagnostic record naming route (or scope), parameters and request line and containing none of the secret values; afterwards the routes are unchanged, a follow-up request is served and a write issued under the scheduler completes (writer lock released, else deadlock). One run in four repeats the route-handler site through CustomRecovery's built-in log handler on a route whose wildcards are named like log attributes (latency, status, error, level, time, msg, ...), reading the record back from standard error. Panic values include typed nil pointers (error, Stringer, *net.OpError, *url.URL) and values whose Error/String method panics. Non-trivial: every run (all combinations are executed); distinct = hash of (configuration, header capitalisation, program).",
 		Run:  runC15, Quick: 4000, Thorough: 480000,
 		Real: []string{"Recovery middleware (recovery.go)", "Router.Updates/View abort paths", "recorder ResponseWriter", "ServeHTTP dispatch", "built-in log handler (internal/slogpretty) in one run of four: its output goes to file descriptor 2, pointed at a private scratch file for the duration of the call"},
 		Stub: []string{"slog sink: capturing handler (built-in handler: see real)", "net/http connection: simulated connection", "handlers and middleware that panic on script"},
@@ -30,6 +31,24 @@ func init() {
 }
 
 type customPanic struct{ n int }
+
+// panic values whose own methods panic: a typed nil pointer (the usual way: panic(err) with err a nil *T in an error
+// interface), and a value whose Error or String method fails outright
+type derefErr struct{ msg string }
+
+func (e *derefErr) Error() string { return e.msg }
+
+type derefStringer struct{ msg string }
+
+func (e *derefStringer) String() string { return e.msg }
+
+type explodingErr struct{}
+
+func (explodingErr) Error() string { panic("Error method of the panic value panics") }
+
+type explodingStringer struct{}
+
+func (explodingStringer) String() string { panic("String method of the panic value panics") }
 
 func panicValues() []struct {
 	Name   string
@@ -56,6 +75,13 @@ func panicValues() []struct {
 		{"broken-pipe", op(syscall.EPIPE), false, true},
 		{"conn-reset", op(syscall.ECONNRESET), false, true},
 		{"other-errno", op(syscall.ENOSPC), false, false},
+		{"nil-error-pointer", (*derefErr)(nil), false, false},
+		{"nil-stringer-pointer", (*derefStringer)(nil), false, false},
+		{"nil-operror-pointer", (*net.OpError)(nil), false, false},
+		{"nil-url-pointer", (*url.URL)(nil), false, false},
+		{"exploding-error", explodingErr{}, false, false},
+		{"exploding-stringer", explodingStringer{}, false, false},
+		{"stringer", &derefStringer{"a stringer"}, false, false},
 		// the broken-connection errno one wrapping layer further down the OpError's chain
 		{"broken-pipe-wrapped", &net.OpError{Op: "write", Net: "tcp", Err: fmt.Errorf("flush: %w", &os.SyscallError{Syscall: "write", Err: syscall.EPIPE})}, false, true},
 		// ... and reported by the system call error's text only (other platforms' spelling, non-errno causes)
